@@ -692,7 +692,9 @@ func nativeReplay(repo, verif, pdir, id string, g GroupCfg, replayPath, scratch 
 	ovb, _ := json.Marshal(map[string]interface{}{"Replace": replace})
 	ovFile := filepath.Join(scratch, "overlay_"+sanitize(g.Package)+".json")
 	os.WriteFile(ovFile, ovb, 0o644)
-	env := append(os.Environ(), "GOFLAGS=-mod=mod", "GOPROXY=off", "GOSUMDB=off", "GOTOOLCHAIN=local", "VERIF_REPLAY="+replayPath)
+	// TMPDIR is pinned to the configuration the native oracles were validated
+	// with (sandboxes and the code's own temporary files side by side in /tmp)
+	env := append(os.Environ(), "GOFLAGS=-mod=mod", "GOPROXY=off", "GOSUMDB=off", "GOTOOLCHAIN=local", "VERIF_REPLAY="+replayPath, "TMPDIR=/tmp")
 	var out bytes.Buffer
 	var runErr error
 	straceEscapes := ""
